@@ -1202,7 +1202,9 @@ static bool parse_string(TokenContext &ctx, Chunk &pc, size_t quote_idx, bool al
       else if (  ch == '\r'
               && ctx.peek() != '\n')
       {
-         pc.Str().append(ctx.get());
+         // a bare CR is a line break of its own; the character after it is
+         // handled by the next iteration (it may be the closing quote, or
+         // there may be none at all at the end of the file)
          pc.SetNlCount(pc.GetNlCount() + 1);
          pc.SetType(CT_STRING_MULTI);
       }
